@@ -597,6 +597,57 @@ func StoreThenWalk(seed uint64) *Case {
 	}
 }
 
+// EvictWindow is a C05 sub-profile: the displacement distance is enumerated,
+// not drawn. One store to a line below 1 KB, then a counted walk that touches
+// exactly `iters` further lines at the given stride, then (after `gap` filler
+// instructions) a reload of the stored bytes. Sweeping iters over every value
+// of a range puts the reload, for some index, into the window in which the
+// stored line is being displaced from each cache level (victim chosen,
+// write-back not yet finished), whatever the capacity of that level is.
+func EvictWindow(seed uint64, iters, stride, gap int) *Case {
+	for try := uint64(0); ; try++ {
+		r := rng.New(rng.Derive(seed, 0xe71c, try))
+		p := &Profile{Name: "evict-window", PoolMin: 3, PoolMax: 6, AddrRegsMax: 1, SubWord: r.Bool(), MemSizes: []int{16384}}
+		b := NewBuilder(r, p)
+		op := b.storeOp()
+		sz := op.AccessSize()
+		addr := 64*r.Intn(16) + r.Intn(64/sz)*sz
+		b.Emit(isa.Inst{Op: op, Rs2: b.Pool[0], Rs1: isa.Zero, Imm: int32(addr)})
+		// the loop must not start in the back-pressure window behind the store
+		// (an open finding, KF-W8, owns a loop counter re-read there)
+		for k := 0; k < 18; k++ {
+			b.Emit(isa.Inst{Op: isa.NOP})
+		}
+		base := 1024 + 64*r.Intn(2)
+		n := iters
+		for n > 1 && base+(n-1)*stride+8 > b.ReadOnlyFrom {
+			n--
+		}
+		w, c := walkRegs[0], loopRegs[0]
+		b.Emit(isa.Inst{Op: isa.LI, Rd: w, Imm: int32(base)})
+		b.Emit(isa.Inst{Op: isa.LI, Rd: c, Imm: int32(n)})
+		top := b.NewLabel()
+		b.Place(top)
+		b.Emit(isa.Inst{Op: isa.LW, Rd: scratchRegs[1], Rs1: w, Imm: 0})
+		b.Emit(isa.Inst{Op: isa.ADDI, Rd: w, Rs1: w, Imm: int32(stride)})
+		b.Emit(isa.Inst{Op: isa.ADDI, Rd: c, Rs1: c, Imm: -1})
+		b.Emit(isa.Inst{Op: isa.BNEZ, Rs1: c, Label: top})
+		for k := 0; k < gap; k++ {
+			b.Emit(isa.Inst{Op: isa.ADDI, Rd: scratchRegs[2], Rs1: scratchRegs[2], Imm: 1})
+		}
+		lop := map[isa.Op]isa.Op{isa.SW: isa.LW, isa.SH: isa.LH, isa.SB: isa.LB}[op]
+		b.Emit(isa.Inst{Op: lop, Rd: scratchRegs[0], Rs1: isa.Zero, Imm: int32(addr)})
+		if r.Bool() {
+			b.Emit(isa.Inst{Op: isa.RET})
+		}
+		b.Prog.Labels["END"] = len(b.Prog.Insts)
+		b.Tag("evict-window")
+		if cs := Finish(b, 5000, false); cs != nil {
+			return cs
+		}
+	}
+}
+
 // ReuseTrap is a C08 sub-profile: one static load executes for real with an
 // old base register and, later, on the wrong path of a late-resolving taken
 // branch right behind a producer of its base register (so it is forwarded and
